@@ -6,4 +6,4 @@ replace github.com/krotik/ecal => /repo
 
 require github.com/krotik/ecal v0.0.0
 
-require github.com/krotik/common v1.4.4 // indirect
+require github.com/krotik/common v1.4.4
